@@ -747,7 +747,7 @@ func ruleAppendBoundary(p *Prog, r *Report) {
 // ruleMergeOrder: R18.6 — the documented order of the merged lists, read from
 // the append chains that build them.
 func ruleMergeOrder(p *Prog, r *Report) {
-	r.rule("R18.6", "Order skeleton of the merge, read from the append chains that build the merged lists: Cisco ACLs — result = (raw/prepend part) ++ (existing ACL), and APPEND lines are spliced in as acl[:i] ++ appendACL ++ acl[i:] where i follows the last permit line; lines are sorted into the prepend or the append list by the [APPEND] flag; PAN-OS — rules without the APPEND attribute are collected and put in front of the existing rules, rules with it are appended behind them; Linux — a rule is inserted at index 0 unless it is marked append, in which case the index is moved back over trailing DROP rules. (The positions inside real lists are runtime values; this fixes which list goes where.)")
+	r.rule("R18.6", "Order skeleton of the merge, read from the append chains that build the merged lists: Cisco ACLs — result = (raw/prepend part) ++ (existing ACL), and APPEND lines are spliced in as acl[:i] ++ appendACL ++ acl[i:] where i follows the last permit line; lines are sorted into the prepend or the append list by the [APPEND] flag; PAN-OS — rules without the APPEND attribute are collected and put in front of the existing rules, rules with it are appended behind them; Linux — rules not marked append are inserted in front, rules marked append before the trailing DROP rules (the index is moved back while the previous rule is DROP), both as whole lists (no slices.Insert of a single rule). (The positions inside real lists are runtime values; this fixes which list goes where.)")
 	descChain := func(v ssa.Value) []string {
 		var out []string
 		for _, x := range appendChain(v) {
@@ -839,9 +839,35 @@ func ruleMergeOrder(p *Prog, r *Report) {
 			}
 			return rawShortName(f) == "slices.Insert"
 		}
+		// the position comes from a search that walks backwards (a counter that is decremented): behind
+		// the LAST permit line, not in front of the first deny line
+		backwards := func(v ssa.Value) bool {
+			dec := false
+			seen := map[ssa.Value]bool{}
+			var walk func(v ssa.Value, d int)
+			walk = func(v ssa.Value, d int) {
+				if seen[v] || d > 8 {
+					return
+				}
+				seen[v] = true
+				switch x := v.(type) {
+				case *ssa.Phi:
+					for _, e := range x.Edges {
+						walk(e, d+1)
+					}
+				case *ssa.BinOp:
+					if x.Op == token.SUB {
+						dec = true
+					}
+					walk(x.X, d+1)
+				}
+			}
+			walk(v, 0)
+			return dec
+		}
 		for _, cs := range callsOf(fn) {
 			args := cs.In.Common().Args
-			if isInsert(cs.Static) && len(args) == 3 && kindOf(args[2]) == "flag" {
+			if isInsert(cs.Static) && len(args) == 3 && kindOf(args[2]) == "flag" && backwards(args[1]) {
 				app = true
 			}
 			if isNewHelper(cs.Static) {
@@ -850,7 +876,7 @@ func ruleMergeOrder(p *Prog, r *Report) {
 						continue
 					}
 					for _, cs2 := range callsOf(cs.Static) {
-						if a2 := cs2.In.Common().Args; isInsert(cs2.Static) && len(a2) == 3 && a2[2] == ssa.Value(cs.Static.Params[k]) {
+						if a2 := cs2.In.Common().Args; isInsert(cs2.Static) && len(a2) == 3 && a2[2] == ssa.Value(cs.Static.Params[k]) && backwards(a2[1]) {
 							app = true
 						}
 					}
@@ -963,7 +989,26 @@ func ruleMergeOrder(p *Prog, r *Report) {
 			}
 		}
 		okDrop = okDrop && okBack
-		r.add("R18.6", "linux-insert|(*linux.config).MergeSpoc", p.pos(fn.Pos()), "raw rules are inserted (index 0, or before the trailing DROP rules when marked append: backward walk while the previous rule is DROP)", okIns && okFlag && okDrop,
+		// the lists are inserted whole: an element-wise slices.Insert in a loop puts every rule at
+		// a position computed anew (index 0: the rules come out reversed; "before the trailing DROP
+		// rules" moves while DROP rules are being inserted)
+		whole, nIns := true, 0
+		posIns := p.pos(fn.Pos())
+		for _, g := range append([]*ssa.Function{fn}, fn.AnonFuncs...) {
+			for _, cs := range callsOf(g) {
+				if n, _, _ := strings.Cut(cs.calleeName(), "["); n == "slices.Insert" {
+					nIns++
+					args := cs.In.Common().Args
+					if el, isLit := sliceLitElems(args[len(args)-1]); isLit && len(el) > 0 {
+						whole = false
+						posIns = p.ipos(cs.In)
+					}
+				}
+			}
+		}
+		r.add("R18.6", "linux-insert-whole|(*linux.config).MergeSpoc", posIns, fmt.Sprintf("%d slices.Insert call(s) of the chain merge insert lists (`list...`), none a single rule: the raw rules in front and the [APPEND] rules are inserted as whole lists", nIns), whole && nIns > 0,
+			"raw rules are inserted one by one at a position computed per rule: rules inserted at index 0 come out in reversed order (iptables is first match). (Pins the defect repaired by the fix for property C18.)")
+		r.add("R18.6", "linux-insert|(*linux.config).MergeSpoc", p.pos(fn.Pos()), "raw rules are inserted (in front, or before the trailing DROP rules when marked append: backward walk while the previous rule is DROP)", okIns && okFlag && okDrop,
 			"the chain merge lost the prepend / append-before-DROP placement")
 	} else {
 		r.fail("R18.6", "anchor|linux MergeSpoc", "", "not found", "")
@@ -1255,6 +1300,11 @@ func ruleEveryLineKept(p *Prog, r *Report) {
 							for _, e := range el {
 								if e == ssa.Value(elem) {
 									keep[b2] = true
+								}
+								for _, rt := range valueRoots(e) {
+									if rt == ssa.Value(elem) {
+										keep[b2] = true
+									}
 								}
 							}
 						} else {
